@@ -47,6 +47,7 @@ type Solver struct {
 	seq      int
 	stack    [][]*Term
 	Restarts int
+	needReset bool
 	Slow     int
 }
 
@@ -111,6 +112,10 @@ func (s *Solver) Close() {
 }
 
 func (s *Solver) send(line string) {
+	if s.needReset && !strings.HasPrefix(line, "(get-value") && !strings.HasPrefix(line, "(echo") {
+		s.needReset = false
+		s.send("(set-option :timeout 4294967295)")
+	}
 	if s.log != nil {
 		fmt.Fprintln(s.log, line)
 	}
@@ -266,8 +271,10 @@ func (s *Solver) Check() SatResult {
 		s.restart()
 	}
 	// no timeout outside check-sat: a timeout firing inside push/assert
-	// ("push canceled") would desynchronise the assertion stack
-	s.send("(set-option :timeout 4294967295)")
+	// ("push canceled") would desynchronise the assertion stack. The reset is
+	// sent lazily (before the next non-query command) because set-option
+	// invalidates the model that get-value reads.
+	s.needReset = true
 	switch r {
 	case Sat:
 		s.NSat++
